@@ -241,20 +241,24 @@ func collectTVarFTypeWithSet(visited SSet, recs dict.Dict[string, bool], ft FTyp
 	case FType_FRecord:
 		rt := _v9.Value
 		key := rtToKey(rt)
-		on, _ := frt.Destr2(dict.TryFind(recs, key))
+		on, seen := frt.Destr2(dict.TryFind(recs, key))
 		frt.IfOnly(on, (func() {
 			frt.PipeUnit(frt.Sprintf1("Recursive record type is not supported, use union: %s", rt.Name), PanicNow)
 		}))
-		dict.Add(recs, key, true)
-		ri := lookupRecInfo(rt)
-		fres := frt.Pipe(frt.Pipe(ri.Fields, (func(_r0 []NameTypePair) []FType {
-			return slice.Map(func(_v1 NameTypePair) FType {
-				return _v1.Ftype
-			}, _r0)
-		})), (func(_r0 []FType) []string { return slice.Collect(recurse, _r0) }))
-		tres := frt.Pipe(rt.Targs, (func(_r0 []FType) []string { return slice.Collect(recurse, _r0) }))
-		dict.Add(recs, key, false)
-		return slice.Append(fres, tres)
+		return frt.IfElse(seen, (func() []string {
+			return slice.New[string]()
+		}), (func() []string {
+			dict.Add(recs, key, true)
+			ri := lookupRecInfo(rt)
+			fres := frt.Pipe(frt.Pipe(ri.Fields, (func(_r0 []NameTypePair) []FType {
+				return slice.Map(func(_v1 NameTypePair) FType {
+					return _v1.Ftype
+				}, _r0)
+			})), (func(_r0 []FType) []string { return slice.Collect(recurse, _r0) }))
+			tres := frt.Pipe(rt.Targs, (func(_r0 []FType) []string { return slice.Collect(recurse, _r0) }))
+			dict.Add(recs, key, false)
+			return slice.Append(fres, tres)
+		}))
 	case FType_FUnion:
 		ut := _v9.Value
 		uname := utName(ut)
@@ -429,7 +433,16 @@ func collectTVarBlockFacade(b Block) []string {
 	return collectTVarBlock(collE, collS, b)
 }
 
-func transTVFTypeWithSet(visited SSet, recs dict.Dict[string, bool], transTV func(TypeVar) FType, ftp FType) FType {
+type RecTrace struct {
+	On   dict.Dict[string, bool]
+	Done dict.Dict[string, RecordType]
+}
+
+func newRecTrace() RecTrace {
+	return RecTrace{On: dict.New[string, bool](), Done: dict.New[string, RecordType]()}
+}
+
+func transTVFTypeWithSet(visited SSet, recs RecTrace, transTV func(TypeVar) FType, ftp FType) FType {
 	recurse := (func(_r0 FType) FType { return transTVFTypeWithSet(visited, recs, transTV, _r0) })
 	switch _v17 := (ftp).(type) {
 	case FType_FTypeVar:
@@ -457,14 +470,20 @@ func transTVFTypeWithSet(visited SSet, recs dict.Dict[string, bool], transTV fun
 	case FType_FRecord:
 		rt := _v17.Value
 		key := rtToKey(rt)
-		on, _ := frt.Destr2(dict.TryFind(recs, key))
+		on, _ := frt.Destr2(dict.TryFind(recs.On, key))
 		frt.IfOnly(on, (func() {
 			frt.PipeUnit(frt.Sprintf1("Recursive record type is not supported, use union: %s", rt.Name), PanicNow)
 		}))
-		dict.Add(recs, key, true)
-		nrt := transRecType(recurse, rt)
-		dict.Add(recs, key, false)
-		return New_FType_FRecord(nrt)
+		memo, hit := frt.Destr2(dict.TryFind(recs.Done, key))
+		return frt.IfElse(hit, (func() FType {
+			return New_FType_FRecord(memo)
+		}), (func() FType {
+			dict.Add(recs.On, key, true)
+			nrt := transRecType(recurse, rt)
+			dict.Add(recs.On, key, false)
+			dict.Add(recs.Done, key, nrt)
+			return New_FType_FRecord(nrt)
+		}))
 	case FType_FUnion:
 		ut := _v17.Value
 		uname := utName(ut)
@@ -472,7 +491,7 @@ func transTVFTypeWithSet(visited SSet, recs dict.Dict[string, bool], transTV fun
 			return ftp
 		}), (func() FType {
 			SSetPut(visited, uname)
-			nrecs := dict.New[string, bool]()
+			nrecs := RecTrace{On: dict.New[string, bool](), Done: recs.Done}
 			inUnion := (func(_r0 FType) FType { return transTVFTypeWithSet(visited, nrecs, transTV, _r0) })
 			cases := utCases(ut)
 			ntps := frt.Pipe(slice.Map(func(_v1 NameTypePair) FType {
@@ -499,7 +518,7 @@ func transTVFTypeWithSet(visited SSet, recs dict.Dict[string, bool], transTV fun
 
 func transTVFType(transTV func(TypeVar) FType, ftp FType) FType {
 	visited := NewSSet()
-	recs := dict.New[string, bool]()
+	recs := newRecTrace()
 	return transTVFTypeWithSet(visited, recs, transTV, ftp)
 }
 
